@@ -4,6 +4,7 @@ package lint
 func extraRules() []*Rule {
 	var out []*Rule
 	out = append(out, rulesLocks()...)
+	out = append(out, rulesTables()...)
 	return out
 }
 
